@@ -3,3 +3,13 @@ from . import lane_props
 
 registry = {}
 registry.update(lane_props.REGISTRY)
+
+
+def _lazy(mod, fn='run'):
+    def f(a):
+        import importlib
+        return getattr(importlib.import_module('checks.' + mod), fn)(a)
+    return f
+
+
+registry['C20'] = _lazy('c20')
